@@ -20,13 +20,13 @@ var poolTokenizer = []string{
 
 var poolCsv = []string{
 	"a,b\r\n1,2", "\"q\"\"x\",y\n\r", "\"unterminated", ",,\n", "\r\n\r\n", "\n\r", "x\ry", "é,λ\r\n日本,", "", "a", "'a',\"b\"",
-	"1;2;3", "\"a\r\nb\",c",
+	"1;2;3", "\"a\r\nb\",c", "😀,😀😀\n", "\uffff,\uffff",
 }
 
 var poolMustache = []string{
 	"Hello {{name}}!", "{{#a}}x{{/a}}", "{{^a}}y{{/a}}", "{{{raw}}}", "{{! c }}", "{{#a}}x", "{{/a}}", "{{a", "{{{a}}", "{{a}}}",
 	"{{#if a}}1{{/if}}", "{{#unless a}}2{{/unless}}", "{{#a}}{{#b}}n{{/b}}{{/a}}", "{{#a}}x{{/b}}", "plain text", "", "{{}}", "{{ a b }}",
-	"é {{λ}} 日本", "{ {a} }", "{{#a}}{{name}}{{/}}", "{{>partial}}", "{{a}}{{A}}{{b}}", "'{{a}}' \"{{b}}\"",
+	"é {{λ}} 日本", "{ {a} }", "😀 {{a}} 😀😀", "{{😀}}", "{{a 😀}}", "{{#a}}{{name}}{{/}}", "{{>partial}}", "{{a}}{{A}}{{b}}", "'{{a}}' \"{{b}}\"",
 }
 
 var poolExpression = []string{
@@ -36,6 +36,7 @@ var poolExpression = []string{
 	"1 +", "(a", "a b", ")", "a[1", "f(", "f(1,", "1 2", "", "  ", "a LIKE 'x'", "Unknown(1)", "zz", "1/0", "'é'", "'abc", "a <= ", "<= a",
 	"a<=b AND a<>b AND a<<b", "If(a<=b, a<<1, a>>1)",
 	"1%0", "a/(b-2)", "Array(1,2)[5]", "'abc'[7]", "Array(1)[-1]", "''[0]", "1 << -1", "a >> -2", "zz NOT IN Array(1)", "zz IN Array(1)",
+	"1 /*x*/😀", "a + 😀", "😀😀", "'😀' + 'x'", "a /* c */ /* d */ + 1",
 	"Min(zz, 1)", "Choose(-1, 1, 2, 3)", "Choose(9, 1, 2, 3)", "If('x', 1, 2)", "'é' + 'λ'", "\"é\"",
 }
 
